@@ -14,11 +14,15 @@ from .facts import const_name, is_place
 def _flag_copies(fn, flag):
     """Single-assignment temporaries that are plain copies of the flag (`_15 = _12`)."""
     out = {flag}
-    for l, ds in fn.defs().items():
-        if len(ds) == 1 and ds[0][2] == 'assign':
-            rv = ds[0][3]['rv']
-            if rv['k'] == 'use' and is_place(rv['op']) and not rv['op']['pl']['p'] and rv['op']['pl']['l'] == flag:
-                out.add(l)
+    changed = True
+    while changed:
+        changed = False
+        for l, ds in fn.defs().items():
+            if l not in out and len(ds) == 1 and ds[0][2] == 'assign':
+                rv = ds[0][3]['rv']
+                if rv['k'] == 'use' and is_place(rv['op']) and not rv['op']['pl']['p'] and rv['op']['pl']['l'] in out:
+                    out.add(l)
+                    changed = True
     return out
 
 
@@ -91,10 +95,38 @@ class FlagCFG:
                 # assignment temporaries created right before the switch, so this holds when the copy's definition is
                 # in this block after every flag store of the block
                 ds = fn.defs().get(l, [])
-                if l == self.flag or (ds and ds[0][0] == b and all(i < ds[0][1] for i, _ in self.defs.get(b, []))):
+                if l == self.flag or (ds and ds[0][0] == b and all(i < ds[0][1] for i, _ in self.defs.get(b, []))) or self._copy_current(l, b):
                     tgt = [tb for vv, tb in t['targets'] if vv == val]
                     return [(tgt[0] if tgt else t['otherwise'], v)]
         return [(s, v) for s in succs]
+
+    def _copy_current(self, l, b):
+        """The copy l (or the negated copy) taken in an earlier block still equals the flag when block b tests it: no
+        store to the flag lies on a path from the copy to b (an argument of a helper that was spliced in)."""
+        key = (l, b)
+        cache = self.__dict__.setdefault('_cc', {})
+        if key in cache:
+            return cache[key]
+        fn = self.fn
+        ds = fn.defs().get(l, [])
+        ok = False
+        if len(ds) == 1:
+            cb, ci = ds[0][0], ds[0][1]
+            src = ds[0][3]['rv'].get('op') or ds[0][3]['rv'].get('a') if ds[0][2] == 'assign' else None
+            chain_ok = True
+            # the copy may itself be a copy of a copy: every link must be a single assignment dominating the next
+            if src is not None and is_place(src) and src['pl']['l'] != self.flag:
+                chain_ok = self._copy_current(src['pl']['l'], cb)
+            after = fn.reachable(fn.succs()[cb]) if fn.succs()[cb] else set()
+            ok = chain_ok and fn.dominates(cb, b)
+            for db, stores in self.defs.items():
+                for (i, v) in stores:
+                    if db == cb and i > ci and (b in after or b == cb):
+                        ok = False
+                    if db != cb and db in after and (b == db or b in fn.reachable(fn.succs()[db])):
+                        ok = False
+        cache[key] = ok
+        return ok
 
     def explore(self, start_block, start_val, stop=lambda b: False, from_idx=-1):
         """States reachable from the end of start_block.  `stop(b)` blocks are recorded but not expanded.
